@@ -124,62 +124,99 @@ structure CoreSt where
 /-- Replace `n = v.length` elements of `l` starting at `i`. -/
 def splice (l : List Int) (i : Nat) (v : List Int) : List Int := l.take i ++ v ++ l.drop (i + v.length)
 
+/-- decode_core.c:152-154: at `k == 2` the first two sub-frames of `xq` are copied behind the LTP memory of `outBuf`. -/
+def rewhitenBuf (fs : Nat) (k : Nat) (c : CoreSt) : List Int :=
+  if k = 2 then splice c.outBuf (ltpMemLen fs) (c.xq.take (2 * subfrLen fs)) else c.outBuf
+
 /-- The re-whitening :149-166 of sub-frame `k`: new `(outBuf, ltpH)`. -/
 def rewhiten (fs : Nat) (k : Nat) (lag : Int) (A : List Int) (invGainQ31 : Int) (c : CoreSt) :
     Res (List Int × List Int) :=
-  let order := lpcOrder fs
-  let startIdx := (ltpMemLen fs : Int) - lag - (order : Int) - (SilkCoreTabs.ltpOrder / 2 : Nat)
-  if startIdx ≤ 0 then .abort                         -- celt_assert( start_idx > 0 )
-  else if (ltpMemLen fs : Int) - startIdx < (order : Int) then .abort     -- celt_assert( d <= len )
+  if (ltpMemLen fs : Int) - lag - (lpcOrder fs : Int) - (SilkCoreTabs.ltpOrder / 2 : Nat) ≤ 0 then .abort     -- celt_assert( start_idx > 0 )
+  else if lag + (lpcOrder fs : Int) + (SilkCoreTabs.ltpOrder / 2 : Nat) < (lpcOrder fs : Int) then .abort     -- celt_assert( d <= len ), len = ltp_mem_length - start_idx
   else
-    let outBuf := if k = 2 then splice c.outBuf (ltpMemLen fs) (c.xq.take (2 * subfrLen fs)) else c.outBuf
-    let n := (lag + 2).toNat
-    let sig := (outBuf.take (ltpMemLen fs + k * subfrLen fs)).reverse
-    let sLTP := lpcAnaRev A n sig                     -- sLTP[ ltp_mem_length - 1 ], sLTP[ ltp_mem_length - 2 ], …
-    if sLTP.length < n then .oob
-    else .ok (outBuf, sLTP.map (fun v => smulwb invGainQ31 v) ++ c.ltpH.drop n)
+    -- sLTP[ ltp_mem_length - 1 ], sLTP[ ltp_mem_length - 2 ], …
+    if (lpcAnaRev A (lag + 2).toNat ((rewhitenBuf fs k c).take (ltpMemLen fs + k * subfrLen fs)).reverse).length < (lag + 2).toNat then .oob
+    else .ok (rewhitenBuf fs k c,
+              (lpcAnaRev A (lag + 2).toNat ((rewhitenBuf fs k c).take (ltpMemLen fs + k * subfrLen fs)).reverse).map
+                (fun v => smulwb invGainQ31 v) ++ c.ltpH.drop (lag + 2).toNat)
+
+/-- What sub-frame `k` computes before the long-term prediction (decode_core.c:104-140): pure arithmetic. -/
+structure SubPrep where
+  A : List Int               -- A_Q12 = PredCoef_Q12[ k >> 1 ]
+  gain : Int                 -- Gains_Q16[ k ]
+  gainQ10 : Int
+  invGainQ31 : Int
+  gainAdj : Int
+  hist : List Int            -- sLPC_Q14 after the gain adjustment :120-122
+  ltpCoef : List Int
+  pitchL : List Int
+  voiced : Bool              -- signalType == TYPE_VOICED after the transition branch
+  B : List Int               -- B_Q14
+  excK : List Int            -- pexc_Q14[ 0 .. subfr_length )
+  deriving Repr, DecidableEq
+
+/-- decode_core.c:132-133: "avoid abrupt transition from voiced PLC to unvoiced normal decoding". -/
+def transK (s : DecState) (f : FrameIn) (k : Nat) : Bool :=
+  decide (s.lossCnt ≠ 0) && decide (s.prevSignalType = SilkCoreTabs.typeVoiced) &&
+    decide (f.signalType ≠ SilkCoreTabs.typeVoiced) && decide (k < SilkCoreTabs.maxNbSubfr / 2)
+
+/-- decode_core.c:104-140 for a non-zero gain. -/
+def subPrep (s : DecState) (f : FrameIn) (ctrl : Ctrl) (exc : List Int) (k : Nat) (c : CoreSt) (gain : Int) : SubPrep :=
+  let fs := s.fsKHz
+  -- :116-125
+  let gainAdj := if gain ≠ c.prevGainQ16 then div32VarQ c.prevGainQ16 gain 16 else 65536
+  -- :132-140
+  let trans : Bool := transK s f k
+  let ltpCoef := if trans then splice c.ltpCoef (k * 5) [0, 0, SilkCoreTabs.transitionTapQ14, 0, 0] else c.ltpCoef
+  { A := if k / 2 = 0 then ctrl.pred0 else ctrl.pred1,
+    gain := gain,
+    gainQ10 := shrI gain 6,
+    invGainQ31 := inverse32VarQ gain 47,
+    gainAdj := gainAdj,
+    hist := if gain ≠ c.prevGainQ16 then c.hist.map (fun v => smulww gainAdj v) else c.hist,
+    ltpCoef := ltpCoef,
+    pitchL := if trans then splice c.pitchL k [s.lagPrev] else c.pitchL,
+    voiced := trans || decide (f.signalType = SilkCoreTabs.typeVoiced),
+    B := (ltpCoef.drop (k * 5)).take 5,
+    excK := (exc.drop (k * subfrLen fs)).take (subfrLen fs) }
+
+/-- decode_core.c:147-174: the LTP state `(outBuf, ltpH)` a voiced sub-frame starts from — re-whitened (`k == 0`, or `k == 2` with
+    NLSF interpolation), re-scaled when the gain changed, or unchanged. -/
+def ltpState (fs : Nat) (ltpScaleQ14 : Int) (interpFlag : Bool) (k : Nat) (lag : Int) (p : SubPrep) (c : CoreSt) :
+    Res (List Int × List Int) :=
+  if k = 0 ∨ (k = 2 ∧ interpFlag) then
+    rewhiten fs k lag p.A (if k = 0 then lshift32 (smulwb p.invGainQ31 ltpScaleQ14) 2 else p.invGainQ31)
+      { c with hist := p.hist }
+  else if p.gainAdj ≠ 65536 then
+    .ok (c.outBuf, (c.ltpH.take (lag + 2).toNat).map (fun v => smulww p.gainAdj v) ++ c.ltpH.drop (lag + 2).toNat)
+  else .ok (c.outBuf, c.ltpH)
+
+/-- decode_core.c:142-198 of a voiced sub-frame: `(res_Q14[], outBuf, ltpH, ub)`. -/
+def voicedLtp (fs : Nat) (ltpScaleQ14 : Int) (interpFlag : Bool) (k : Nat) (p : SubPrep) (c : CoreSt) :
+    Res (List Int × List Int × List Int × Nat) := do
+  let lag ← getI p.pitchL k
+  let ob ← ltpState fs ltpScaleQ14 interpFlag k lag p c
+  -- :178-198
+  let r ← ltpSynth p.B lag p.excK ob.2 c.ub
+  pure (r.1, ob.1, r.2.1, r.2.2)
+
+/-- decode_core.c:203-237: short-term prediction and gain scaling of the sub-frame's residual; the new carried state. -/
+def subFinish (p : SubPrep) (c : CoreSt) (res outBuf ltpH : List Int) (ub : Nat) : CoreSt :=
+  let r := lpcSynth p.A p.gainQ10 res p.hist
+  { hist := r.2, ltpH := ltpH, outBuf := outBuf, xq := c.xq ++ r.1, prevGainQ16 := p.gain,
+    ltpCoef := p.ltpCoef, pitchL := p.pitchL, ub := ub }
 
 /-- One sub-frame `k`. -/
 def subframe (s : DecState) (f : FrameIn) (ctrl : Ctrl) (interpFlag : Bool) (exc : List Int) (k : Nat) (c : CoreSt) :
     Res CoreSt := do
-  let fs := s.fsKHz
-  let A := if k / 2 = 0 then ctrl.pred0 else ctrl.pred1
   let gain ← getI ctrl.gainsQ16 k
   if gain = 0 then .abort                             -- division by zero in silk_INVERSE32_varQ (Inlines.h:159)
   else
-    let gainQ10 := shrI gain 6
-    let invGainQ31 := inverse32VarQ gain 47
-    -- :116-125
-    let gainAdj := if gain ≠ c.prevGainQ16 then div32VarQ c.prevGainQ16 gain 16 else 65536
-    let hist := if gain ≠ c.prevGainQ16 then c.hist.map (fun v => smulww gainAdj v) else c.hist
-    -- :132-140
-    let trans : Bool := decide (s.lossCnt ≠ 0) && decide (s.prevSignalType = SilkCoreTabs.typeVoiced) &&
-      decide (f.signalType ≠ SilkCoreTabs.typeVoiced) && decide (k < SilkCoreTabs.maxNbSubfr / 2)
-    let ltpCoef := if trans then splice c.ltpCoef (k * 5) [0, 0, SilkCoreTabs.transitionTapQ14, 0, 0] else c.ltpCoef
-    let pitchL := if trans then splice c.pitchL k [s.lagPrev] else c.pitchL
-    let voiced : Bool := trans || decide (f.signalType = SilkCoreTabs.typeVoiced)
-    let B := (ltpCoef.drop (k * 5)).take 5
-    let excK := (exc.drop (k * subfrLen fs)).take (subfrLen fs)
-    if voiced then
-      let lag ← getI pitchL k
-      -- :147-174
-      let (outBuf, ltpH) ←
-        if k = 0 ∨ (k = 2 ∧ interpFlag) then
-          rewhiten fs k lag A (if k = 0 then lshift32 (smulwb invGainQ31 ctrl.ltpScaleQ14) 2 else invGainQ31)
-            { c with hist := hist }
-        else if gainAdj ≠ 65536 then
-          let n := (lag + 2).toNat
-          (.ok (c.outBuf, (c.ltpH.take n).map (fun v => smulww gainAdj v) ++ c.ltpH.drop n) : Res (List Int × List Int))
-        else .ok (c.outBuf, c.ltpH)
-      -- :178-198
-      let (res, ltpH, ub) ← ltpSynth B lag excK ltpH c.ub
-      -- :203-237
-      let r := lpcSynth A gainQ10 res hist
-      pure { hist := r.2, ltpH := ltpH, outBuf := outBuf, xq := c.xq ++ r.1, prevGainQ16 := gain,
-             ltpCoef := ltpCoef, pitchL := pitchL, ub := ub }
+    if (subPrep s f ctrl exc k c gain).voiced then
+      let v ← voicedLtp s.fsKHz ctrl.ltpScaleQ14 interpFlag k (subPrep s f ctrl exc k c gain) c
+      pure (subFinish (subPrep s f ctrl exc k c gain) c v.1 v.2.1 v.2.2.1 v.2.2.2)
     else
-      let r := lpcSynth A gainQ10 excK hist
-      pure { c with hist := r.2, xq := c.xq ++ r.1, prevGainQ16 := gain, ltpCoef := ltpCoef, pitchL := pitchL }
+      pure (subFinish (subPrep s f ctrl exc k c gain) c (subPrep s f ctrl exc k c gain).excK c.outBuf c.ltpH c.ub)
 
 /-- Sub-frames `k, k+1, …, k+n-1`. -/
 def subframes (s : DecState) (f : FrameIn) (ctrl : Ctrl) (interpFlag : Bool) (exc : List Int) :
